@@ -208,6 +208,16 @@ def r18_2_3(run):
         run.ob('R18.3', u, lp, 'every existing SOCKS listener is a candidate', full, slot='all-candidates',
                message='the candidate loop iterates %s: %s, so a usable existing listener can be skipped and Tor re-configured'
                % (src(it)[:60], 'it chooses between groups with %s' % src(sel[0])[:40] if sel else 'group(s) %s left out' % sorted(groups - mentioned)))
+        # a candidate that does not match the requested port is skipped, not the rest of the list: the loop is left early
+        # only after an endpoint has been chosen
+        for br in [x for x in ast.walk(lp) if isinstance(x, (ast.Break, ast.Return))]:
+            bn = [n for n in g.real_nodes() if n.ast is br]
+            assigned = [n for n in g.real_nodes() if n.kind == 'stmt' and isinstance(n.ast, ast.Assign) and assign_to(n.ast, SE) is not None and not is_none(assign_to(n.ast, SE))
+                        and any(n.ast is y for y in ast.walk(lp))]
+            okb = bool(bn) and all(any(g.dominates(a_, b_) for a_ in assigned) for b_ in bn)
+            run.ob('R18.3', u, br, 'the candidate loop is left early only once a listener has been chosen', okb, slot='early-exit',
+                   message='the candidate loop stops at the first entry that is not the requested port: a matching listener further down the list is '
+                           'never considered and Tor is re-configured')
         tv = lp.target.id
         tests = [t for t in ast.walk(lp) if isinstance(t, ast.Compare) and dotted(t.left) == tv and dotted(t.comparators[0]) == 'socks_config']
         ok = bool(tests) and all(isinstance(t.ops[0], (ast.NotEq, ast.Eq)) for t in tests)
@@ -374,6 +384,7 @@ RULES = [
 from ..selftest import M  # noqa: E402
 F, FC = 'txtorcon/endpoints.py', 'txtorcon/torconfig.py'
 MUTANTS = [
+    M('mismatch-breaks', F, "        if socks_config and p != socks_config:\n            continue", "        if socks_config and p != socks_config:\n            break", ['R18.3']),
     M('default-endpoint-first-line', 'txtorcon/controller.py', "        if self._socks_endpoint is None:\n            self._socks_endpoint = yield _create_socks_endpoint(self._reactor, self._protocol)", "        if self._socks_endpoint is None and self._config is not None:\n            self._socks_endpoint = self._config.socks_endpoint(self._reactor)\n        if self._socks_endpoint is None:\n            self._socks_endpoint = yield _create_socks_endpoint(self._reactor, self._protocol)", ['R18.7']),
     M('unix-line-options-kept', FC, "        elif ' ' in path:\n            path = path.split()[0]\n", "", ['R18.5']),
     M('unix-or-tcp', F, "    for p in list(unix_ports) + list(tcp_ports):  # prefer unix-ports", "    for p in sorted(unix_ports) or sorted(tcp_ports):", ['R18.3']),
